@@ -2035,6 +2035,13 @@ func c05Zoo() []c05ZooEntry {
 		return a
 	})
 	e.NeedsRec = true
+	// repaired by /repo 192c5da (validator): a marked container that holds another marked object
+	e = add("nested-shared-containers", func() interface{} {
+		a := &c05Cyc{V: 1}
+		b := &c05Cyc{V: 2, Next: a}
+		return []interface{}{b, b, a}
+	})
+	e.NeedsRec = true
 	e = add("cycle-map", func() interface{} {
 		m := map[interface{}]interface{}{}
 		m[1] = m
